@@ -8,7 +8,7 @@ TRUSTED_BASE = [
     "Lean compiler/runtime for the driver executable and the Rust harness (affect only the correspondence/oracle tests, not the theorems)",
 ]
 
-HOOK_COMMITS = ["f98da77"]
+HOOK_COMMITS = ["f98da77", "3658628"]
 
 PENDING = {}
 
@@ -22,6 +22,73 @@ PENDING_TEXT = {
 }
 
 PROPS = {
+    "C13": {
+        "module": "ShapeVerif.Props.C13",
+        "theorems": ["ShapeVerif.defined_once", "ShapeVerif.createSubtype_definesOnce_aux"],
+        "statements": {
+            "defined_once": "∀ s, the item names of `firstPass s` (the items rendered into the file) are pairwise distinct",
+        },
+        "partial": ["proved: every generated item name is defined once (the D15 repair). Not yet theorems: every referenced name is defined (refs_defined) and legality/distinctness of field names; both are decided on every generated file by the independent item parser and name-resolution check, and on batches by rustc",
+                    "known findings: member names whose snake form is not a legal or distinct field name (D17), tuples of more than 12 elements (D19)"],
+        "rule": "gen on shapes inferred from random histories (`gen`, property domain) and on arbitrary shapes (`genx`, model/code comparison only), compile on source sets: the returned text is parsed by an independent parser of codegen's item syntax, names are resolved (each referenced type defined exactly once or standard, legal distinct field/variant/type names, tuple arity), and the first 60 (thorough: 600) modules that pass are included in a module as documented and compiled by rustc against serde. Non-trivial = a module with at least one struct or enum.",
+        "assumptions": ["rustc and serde_derive as installed decide 'compiles' for the batches; the item parser + resolution check decides it on every case"],
+        "level_text": "The generator (first_pass, create_subtype, shape_name with CRC-32 and convert_case, shape_representation, codegen's rendering) is modelled in Lean and compared byte for byte with the real generator on every case of the run. defined_once is a theorem over all shapes: no item name is emitted twice. The remaining clauses of C13 are validated per generated file (independent parser + resolution) and by rustc on batches; they are not theorems yet.",
+        "level_note": "Trusted: Lean kernel; Lean model of json_shape_build (differential, byte-exact); lib/rustitems.py as the Rust-item parser; rustc for batches.",
+        "trusted_extra": ["lib/rustitems.py: parser of codegen's item syntax and name-resolution check (independent of the Lean model)", "rustc + serde_derive for the compiled batches"],
+    },
+    "C14": {
+        "module": "ShapeVerif.Props.C14",
+        "theorems": ["ShapeVerif.repr_decodes", "ShapeVerif.repr_decodes_nameless"],
+        "statements": {
+            "repr_decodes": "∀ s (no Tuple of length 1) and resolver env, Resolves env s → decodeTy env (shapeRepr s) = some s: the type expression written for a shape in field/variant/alias position reads back as that shape (f64/String/bool/(), Option for optional, Vec, tuples in order, named types through the resolver)",
+            "repr_decodes_nameless": "for shapes without Object/OneOf the read-back needs no resolver at all",
+        },
+        "partial": ["proved for type expressions (shape_representation) relative to a resolver for named types; that the emitted struct/enum definitions make the resolver true (definitions read back, one field per member, one variant per variant shape) is validated on every generated file by decoding the parsed items, not yet a theorem",
+                    "known findings: name clashes (D16) make a reference resolve to another shape's struct; a root optional Object/OneOf is emitted without Option (D22)"],
+        "rule": "every generated file (gen on inferred shapes, compile on source sets) with identifier-like member names is parsed and decoded back into a shape, following type references from the root item, and compared with the inferred shape: kinds, optional flags, element order, variants as sets, members by position (and by name when names are already snake_case). Non-trivial = a shape with a container.",
+        "assumptions": [],
+        "level_text": "repr_decodes is a Lean theorem over all shapes: shape_representation is injective up to the resolver and decodes to the shape. The generator model is compared byte for byte with the real generator each run, and the full read-back of definitions is recomputed on the real output by an independent decoder.",
+        "level_note": "Trusted: Lean kernel; Lean model of json_shape_build (differential, byte-exact); lib/rustitems.py decoder.",
+        "trusted_extra": ["lib/rustitems.py: parser of codegen's item syntax and decoder of items into shapes (independent of the Lean model)"],
+    },
+    "C15": {
+        "module": "ShapeVerif.Props.C15",
+        "extra_modules": ["ShapeVerif.Props.C01"],
+        "theorems": ["ShapeVerif.admits_deserializes", "ShapeVerif.admits_deserializes_root", "ShapeVerif.sources_deserialize",
+                     "ShapeVerif.oneOf_rejects_sources", "ShapeVerif.null_member_missing", "ShapeVerif.empty_object_rejects",
+                     "ShapeVerif.root_optional_rejects_null"],
+        "statements": {
+            "sources_deserialize": "∀ non-empty conflict-free history h of documents without repeated member names: fromSourcesDoc h = ok s, and if s has no OneOf, no empty object, no Null-typed member and is not a root optional object, every d ∈ h is accepted by serde for the generated root type (C01 composed with admits_deserializes_root)",
+            "admits_deserializes": "s.wf → hasOneOf s = false → hasEmptyObject s = false → noNullMembers s = true → docNoDup d → admits s d → serdeAccepts s d: every document admitted by the shape is accepted by serde's derive for the generated type (struct = map with unknown fields ignored and only Option fields omissible, Vec, fixed-length tuple, () and Option read null)",
+            "oneOf_rejects_sources": "no non-null bare document is accepted by the externally tagged enum generated for OneOf (known finding D18)",
+            "null_member_missing": "a member of shape Null absent from a source is a missing `()` field (known finding D23)",
+        },
+        "partial": ["deserialisation clause proved in the model for OneOf-free shapes without Null-typed members and legal field names; with C01 (sources admitted by the inferred shape) it gives: every source deserialises. The serialise-back clause is validated by running the generated program, not a theorem",
+                    "serde's derive is a model (serdeAccepts), validated against the real serde on every compiled case",
+                    "known findings: D18 (OneOf → externally tagged enum), D17 (renamed fields without serde(rename)), D19 (empty object → unit struct), D22 (root optional), D23 (Null member absent), D16 (name clash), D3 (unsound inference on conflicting arrays of objects)"],
+        "rule": "source sets (half from a generator of clean histories: non-empty snake_case objects, homogeneous arrays, tuples, dropped/null members; half arbitrary histories) are compiled by compile_json; modules that pass C13's resolution check are compiled by rustc in a batch (quick: 60 sets, thorough: 600) and every source is deserialised into the root type, serialised back and compared up to number formatting and explicit nulls. The real verdict is compared with serdeAccepts on the same (shape, document). Non-trivial = document accepted into a type with a struct.",
+        "assumptions": ["rustc, serde_derive, serde_json as installed"],
+        "level_text": "admits_deserializes is a Lean theorem over all shapes in the stated fragment and all documents; the excluded classes are exactly the recorded known findings, each with a proved witness. The derive model is compared with the real serde on every (shape, source) of the compiled batches, and the generator model byte for byte with the real generator.",
+        "level_note": "Trusted: Lean kernel; serdeAccepts as model of serde's derive (differential against real serde); generator model (differential); reference semantics admits.",
+        "trusted_extra": ["rustc + serde_derive + serde_json for the compiled batches", "lib/rustitems.py for the root type name"],
+    },
+    "C16": {
+        "module": "ShapeVerif.Props.C16",
+        "theorems": ["ShapeVerif.path_matches", "ShapeVerif.file_is_header_plus_text", "ShapeVerif.compile_deterministic",
+                     "ShapeVerif.name_congr", "ShapeVerif.name_clash_witness", "ShapeVerif.name_prefix_separates"],
+        "statements": {
+            "path_matches": "the path written (OUT_DIR joined with `<name>.gen.shape.rs`) is the path the include macro reads, for every name without `/` (dots included)",
+            "compile_deterministic": "the model compiler is a function of the source texts: same sources, same bytes",
+            "name_congr": "equal shapes receive equal names (shapeName is a function of the shape)",
+            "name_clash_witness": "two different object shapes with the same value types receive the same name (known finding D16, concrete witness)",
+        },
+        "partial": ["'different sub-shapes receive different names' is false of the code (D16, pinned by the build tests' expected names) and is a recorded known finding; proved instead: names separate shapes of different kind/arity/optional flag (name_prefix_separates)",
+                    "'errors leave no output file' and byte-identical reruns are checked on the real compile_json (p_c16) for every source set, OUT_DIR and collection name of the run; the file system is not modelled"],
+        "rule": "p_c16 on source sets x 5 collection names (with dots and dashes) in fresh OUT_DIRs: exactly one file `<name>.gen.shape.rs`, content = header + returned text, second run byte-identical, returned text = generator's text for the shape the library infers, build crate's inference = library's inference; invalid/empty source lists: Err and empty OUT_DIR. Names: across all generated files of the run the maps sub-shape → type name and type name → sub-shape must both be functions. Non-trivial = successful compilation.",
+        "assumptions": [],
+        "level_text": "Path agreement, header+text, determinism and name congruence are Lean theorems about the model of compile_json/shape_name; the model's text is compared byte for byte with the real generator, and the file-system clauses are re-evaluated on the real compile_json each run.",
+        "level_note": "Trusted: Lean kernel; Lean model of json_shape_build (differential, byte-exact); std::fs and PathBuf::join assumed to behave as documented (exercised by p_c16).",
+    },
     "C09": {
         "module": "ShapeVerif.Props.C09",
         "theorems": ["ShapeVerif.converge", "ShapeVerif.mergeRep_stable", "ShapeVerif.absorb_meaning_shapes",
@@ -344,6 +411,8 @@ def ident_keys(sx):
 def direct_oracle(pid, ops, impl):
     """Property checks decided on the implementation's answers alone (no reference evaluation)."""
     fails = []
+    if pid in ("C13", "C14", "C16"):
+        fails.extend(gen_oracle(pid, ops, impl))
     if pid in ("C05", "C04"):
         # a parse error that carries a range: inside the input, on character boundaries, fragment = text[range]
         for o, r in zip(ops, impl):
@@ -415,6 +484,225 @@ def direct_oracle(pid, ops, impl):
     return fails
 
 
+
+# ---------------------------------------------------------------- generator properties (C13-C16)
+
+KFNEED_C13 = {"parse": ["d17s"], "illegal-name": ["d17s"], "duplicate-field": ["d17s"], "duplicate-variant": ["d16"],
+              "tuple-arity": ["d19t"], "rustc": ["d19t"], "duplicate-definition": [], "undefined-type": []}
+KFNEED = {"C14": ["d16", "d17s", "d22"], "C15": ["d16", "d17", "d18", "d19e", "d22", "d23"], "C16": ["d16"]}
+
+
+def gen_cases(ops, impl):
+    """(index, op, shape s-expression, generated text, sources or None) for every generated module
+    inside the properties' domain (shapes inferred from sources)"""
+    out = []
+    for j, (o, r) in enumerate(zip(ops, impl)):
+        f = o.split("\t")
+        try:
+            if f[0] == "gen" and not r.startswith("violated") and r not in ("panic", "timeout", "crash"):
+                out.append((j, o, f[1], bytes.fromhex(r).decode(), None))
+            elif f[0] in ("compile", "p_c16") and r.startswith("ok "):
+                _, hx, sx = r.split(" ", 2)
+                if sx != "?":
+                    out.append((j, o, sx, bytes.fromhex(hx).decode(), [bytes.fromhex(h).decode() for h in f[2:]]))
+        except ValueError:
+            pass
+    return out
+
+
+def keys_of(sx):
+    import re
+    out = []
+    for h in re.findall(r"\(k([0-9a-f]*) ", sx):
+        try:
+            out.append(bytes.fromhex(h).decode())
+        except Exception:
+            out.append(None)
+    return out
+
+
+def c13_problems(text):
+    """[(class, message)] from the independent item parser and the name-resolution check"""
+    import rustitems as R
+    try:
+        items = R.parse_items(text)
+    except R.ParseError as e:
+        return None, [("parse", str(e)[:200])]
+    return items, R.resolve_problems(items)
+
+
+def name_pairs(sx, items):
+    """(sub-shape s-expression, type name) for every Object/OneOf sub-shape, walking the shape and the
+    parsed items in parallel from the root; stops silently where they do not line up (C14's subject)"""
+    import rustitems as R
+    defs = {}
+    for it in items:
+        defs.setdefault(it[1], it)
+    toks = sx.replace("(", " ( ").replace(")", " ) ").split()
+
+    def rd(pos):
+        t = toks[pos]
+        if t != "(":
+            return (t,), pos + 1
+        hd = toks[pos + 1]
+        pos += 2
+        parts = []
+        while toks[pos] != ")":
+            if hd[0] == "O":
+                k = toks[pos + 1]
+                v, pos = rd(pos + 2)
+                pos += 1
+                parts.append((k, v))
+            else:
+                v, pos = rd(pos)
+                parts.append(v)
+        return (hd, parts), pos + 1
+
+    def show(t):
+        if len(t) == 1:
+            return t[0]
+        hd, parts = t
+        if hd[0] == "O":
+            return "(" + hd + "".join(f" ({k} {show(v)})" for k, v in parts) + ")"
+        return "(" + hd + "".join(" " + show(v) for v in parts) + ")"
+
+    tree, _ = rd(0)
+    pairs = []
+
+    def walk_ty(t, ty, depth=0):
+        if depth > 100:
+            return
+        optional = (len(t) == 1 and t[0][1:] == "1") or (len(t) == 2 and t[0][1] == "1")
+        if optional and ty[0] == "option":
+            ty = ty[1]
+        if len(t) == 1:
+            return
+        hd, parts = t
+        if hd[0] == "A" and ty[0] == "vec":
+            walk_ty(parts[0], ty[1], depth + 1)
+        elif hd[0] == "T" and ty[0] == "tuple" and len(ty[1]) == len(parts):
+            for a, b in zip(parts, ty[1]):
+                walk_ty(a, b, depth + 1)
+        elif hd[0] in "OV" and ty[0] == "named":
+            walk_item(t, ty[1], depth + 1)
+
+    def walk_item(t, name, depth=0):
+        hd, parts = t
+        pairs.append((show(t), name))
+        it = defs.get(name)
+        if it is None or depth > 100:
+            return
+        if hd[0] == "O" and it[0] == "struct" and len(it[2]) == len(parts):
+            for (k, v), (f, ty) in zip(parts, it[2]):
+                walk_ty(v, ty, depth + 1)
+        elif hd[0] == "V" and it[0] == "enum" and len(it[2]) == len(parts):
+            for v, (f, ty) in zip(parts, it[2]):
+                walk_ty(v, ty, depth + 1)
+
+    if items:
+        root = items[0]
+        if len(tree) == 2 and tree[0][0] in "OV":
+            walk_item(tree, root[1])
+        elif root[0] == "alias":
+            # root alias: the flag of the root is part of the alias' type
+            walk_ty(tree, root[2])
+    return pairs
+
+
+def gen_oracle(pid, ops, impl):
+    import re
+    import rustitems as R
+    fails = []
+    cases = gen_cases(ops, impl)
+    if pid == "C13":
+        for j, o, sx, text, srcs in cases:
+            items, probs = c13_problems(text)
+            for cls, msg in probs[:3]:
+                fails.append({"op": o, "impl": impl[j][:400], "expected": "a module that parses and resolves", "shape": sx,
+                              "kfneed": KFNEED_C13.get(cls, []),
+                              "why": f"generated module fails the {cls} check: {msg}"})
+    if pid == "C14":
+        for j, o, sx, text, srcs in cases:
+            keys = keys_of(sx)
+            if any(k is None or not re.fullmatch(r"[A-Za-z_][A-Za-z0-9_]*", k) for k in keys):
+                continue                        # outside C14's quantifier (identifier-like member names)
+            items, probs = c13_problems(text)
+            if items is None:
+                fails.append({"op": o, "impl": impl[j][:400], "expected": "definitions that read back as " + sx, "shape": sx,
+                              "kfneed": ["d17s"], "why": "generated module does not parse: " + probs[0][1]})
+                continue
+            back = R.decode(items)
+            # names already in snake_case (convert_case also splits at digits: `x1` becomes `x_1`)
+            by_name = all(re.fullmatch(r"[a-z]+(_[a-z]+)*", k) and k not in R.KEYWORDS for k in keys)
+            want = R.canon(sx, by_name)
+            got = None if back is None else R.canon(back, by_name)
+            if got != want:
+                fails.append({"op": o, "impl": str(back)[:400], "expected": sx, "shape": sx, "kfneed": KFNEED["C14"],
+                              "why": "the generated definitions do not read back as the inferred shape"})
+    if pid == "C16":
+        name_of, shape_of = {}, {}
+        for j, o, sx, text, srcs in cases:
+            items, probs = c13_problems(text)
+            if items is None:
+                continue
+            for sub, name in name_pairs(sx, items):
+                if sub in name_of and name_of[sub][0] != name:
+                    fails.append({"op": o, "impl": name, "expected": name_of[sub][0], "shape": sx, "kfneed": [],
+                                  "why": "equal sub-shapes receive different type names: " + sub[:200]})
+                name_of.setdefault(sub, (name, o))
+                if name in shape_of and shape_of[name][0] != sub:
+                    fails.append({"op": o, "impl": name, "expected": "a name different from that of " + shape_of[name][0][:200],
+                                  "pair": (sub, shape_of[name][0]), "kfneed": ["d16"],
+                                  "why": "different sub-shapes receive the same type name: " + sub[:200]})
+                shape_of.setdefault(name, (sub, o))
+        for o, r in zip(ops, impl):
+            if o.startswith("p_c16\t") and r.startswith("violated"):
+                fails.append({"op": o, "impl": r[:300], "expected": "ok* / err", "kfneed": [],
+                              "why": "compile_json is not consistent with its contract: " + r[:200]})
+    return fails
+
+
+def external_ops(pid, ops, impl, tier):
+    """Operations answered by an external oracle (rustc + the real serde over batches of generated
+    modules): (ops, implementation results, expectations, failures)."""
+    if pid not in ("C13", "C15"):
+        return [], [], [], []
+    import rustbatch
+    import rustitems as R
+    limit = 600 if tier == "thorough" else 60
+    cases, meta = [], []
+    for j, o, sx, text, srcs in gen_cases(ops, impl):
+        if srcs is None or len(cases) >= limit:
+            continue
+        items, probs = c13_problems(text)
+        if items is None or probs or not items:
+            continue
+        cases.append((text, items[0][1], srcs))
+        meta.append((o, sx))
+    x_ops, x_impl, x_exp, fails = [], [], [], []
+    for k in range(0, len(cases), 100):
+        res = rustbatch.run(cases[k:k + 100])
+        for (text, root, srcs), (o, sx), r in zip(cases[k:k + 100], meta[k:k + 100], res):
+            if pid == "C13":
+                x_ops.append("rustc\t" + text.encode().hex())
+                x_impl.append("compiles" if r["compiles"] else "rejected")
+                x_exp.append(None)
+                if not r["compiles"]:
+                    fails.append({"op": o, "impl": "; ".join(r["diagnostics"])[:600], "expected": "compiles", "shape": sx,
+                                  "kfneed": KFNEED_C13["rustc"], "why": "rustc rejects a generated module that parses and resolves"})
+            elif r["compiles"]:
+                for src, verdict in zip(srcs, r["sources"]):
+                    h = src.encode().hex()
+                    x_ops.append(f"derive_accepts\t{sx}\t{h}")
+                    x_impl.append("false" if verdict.startswith("de-fail") else "true")
+                    x_exp.append("true")
+                    if not verdict.startswith("de-fail"):
+                        x_ops.append(f"derive_rt\t{sx}\t{h}")
+                        x_impl.append("true" if verdict == "ok" else "false")
+                        x_exp.append("true")
+    return x_ops, x_impl, x_exp, fails
+
+
 def oracle_ok(got, want):
     if want.startswith("@C04"):
         tag, implres = want.split(":", 1)
@@ -453,7 +741,7 @@ def widen(pid, ops):
     return extra
 
 
-TEXT_FIELDS = {"superset": [2], "supersetchk": [2], "inferdoc": [1], "inferv": [1], "admits": [2]}
+TEXT_FIELDS = {"derive_accepts": [2], "derive_rt": [2], "superset": [2], "supersetchk": [2], "inferdoc": [1], "inferv": [1], "admits": [2]}
 
 
 def texts_of(op):
@@ -480,6 +768,32 @@ def match_known_batch(pid, failures, known, run_model):
             m = k.get("match", {})
             if "op_equals" in m and f.get("op") == m["op_equals"]:
                 res[i] = k
+    gen_classes = {c: k for c, k in by_class.items() if c != "d3"}
+    if "d16" in gen_classes:
+        # a pair of sub-shapes with one name: the recorded class is "they differ in member names only"
+        idx = [i for i, f in enumerate(failures) if res[i] is None and "pair" in f]
+        if idx:
+            _, out = run_model(["kfclass\tkeysonly\t" + failures[i]["pair"][0] + "\t" + failures[i]["pair"][1] for i in idx])
+            for i, r in zip(idx, out):
+                if r == "true":
+                    res[i] = gen_classes["d16"]
+    if gen_classes:
+        def shape_of(f):
+            if "shape" in f:
+                return f["shape"]
+            ff = f.get("op", "").split("\t")
+            return ff[1] if ff[0] in ("derive_accepts", "derive_rt", "gen") and len(ff) > 1 else None
+        idx = [i for i, f in enumerate(failures) if res[i] is None and shape_of(f)]
+        if idx:
+            _, out = run_model(["kfclass\tgen\t" + shape_of(failures[i]) for i in idx])
+            for i, r in zip(idx, out):
+                if not r.startswith("classes"):
+                    continue
+                need = failures[i].get("kfneed", KFNEED.get(pid, []))
+                for c in r.split(" ")[1:]:
+                    if c in need and c in gen_classes:
+                        res[i] = gen_classes[c]
+                        break
     if "d3" in by_class:
         def texts(f):
             # a failed membership check is classified by the failing document alone
